@@ -29,6 +29,11 @@ def reverse_find_token(items: list[ExprNode], value: str) -> int:
     return -1
 
 
+def stacked_precedence(node: ExprNode) -> int:
+    # a unary minus shares its token with the binary one but binds as tightly as "~".
+    return 2 if isinstance(node, UnaryOp) else OPERATOR_PRECEDENCE[node.token.value]
+
+
 def shunting_yard(expr_nodes: list[ExprNode]) -> list[ExprNode]:
     output_queue: list[ExprNode] = []
     operator_stack: list[ExprNode] = []
@@ -43,7 +48,7 @@ def shunting_yard(expr_nodes: list[ExprNode]) -> list[ExprNode]:
             while (
                 isinstance(expr, BinOp)
                 and len(operator_stack) > 0
-                and OPERATOR_PRECEDENCE[operator_stack[-1].token.value] <= current_precedence
+                and stacked_precedence(operator_stack[-1]) <= current_precedence
                 and operator_stack[-1].token.value != "("
             ):
                 output_queue.append(operator_stack.pop())
